@@ -9,6 +9,11 @@ def validate_chunks(ctx, module, tag, traces, chunk=2000, extra_data=None, max_p
     """Returns {global trace index (0-based): diagnostics} for the traces that were not accepted."""
     if not traces:
         return {}
+    hist = ctx.notes.setdefault('event_histogram', {})
+    for tr in traces:
+        for r in tr:
+            k = str(r.get('ev')) + ((':' + str(r.get('kind'))) if r.get('kind') is not None and isinstance(r.get('kind'), str) else '')
+            hist[k] = hist.get(k, 0) + 1
     chunks = [(i, traces[i:i + chunk]) for i in range(0, len(traces), chunk)]
     max_procs = max_procs or min(len(chunks), max(1, (os.cpu_count() or 4)))
     bad = {}
